@@ -556,14 +556,28 @@ func runWHChild(c *Ctx, rule string) {
 			}
 		}
 		// the creation site in Add
+		// (in Add itself, or in a method Add calls on the same receiver, e.g. a lazily-creating nextPage())
 		var site *ssa.Call
-		for _, b := range add.Blocks {
-			for _, ins := range b.Instrs {
-				if call, ok := ins.(*ssa.Call); ok && call.Call.StaticCallee() == inner {
-					site = call
+		var findSite func(fn *ssa.Function, depth int)
+		findSite = func(fn *ssa.Function, depth int) {
+			for _, b := range fn.Blocks {
+				for _, ins := range b.Instrs {
+					call, ok := ins.(*ssa.Call)
+					if !ok {
+						continue
+					}
+					sc := call.Call.StaticCallee()
+					switch {
+					case sc == inner:
+						site = call
+					case sc != nil && sc != add && depth < 3 && sc.Signature.Recv() != nil && len(call.Call.Args) > 0 && len(fn.Params) > 0 &&
+						call.Call.Args[0] == ssa.Value(fn.Params[0]) && u.pkgPathOf(sc) == path:
+						findSite(sc, depth+1)
+					}
 				}
 			}
 		}
+		findSite(add, 0)
 		r.count(rule+"/creation-sites", 1)
 		key := short + ".(*ParquetWriter).Add child"
 		if site == nil {
@@ -717,8 +731,8 @@ func runWHGroups(c *Ctx, rule string) {
 	// A: in the runtime, every append to FileMetaData.RowGroups is guarded by NumRows != 0 of a row group
 	footerGuard := false
 	where := ""
-	_, other := storesTo(u, rgs)
-	for _, st := range other {
+	rgCtor, rgOther := storesTo(u, rgs)
+	for _, st := range append(rgCtor, rgOther...) {
 		if u.pkgPathOf(st.Parent()) != rtPath {
 			continue
 		}
@@ -733,6 +747,33 @@ func runWHGroups(c *Ctx, rule string) {
 		footerGuard = guarded(st.Block(), func(iff *ssa.If, truth bool) bool {
 			return nonZeroTest(iff.Cond, truth, func(v ssa.Value) bool { return fieldOfLoad(v) == numRows })
 		}, 0)
+	}
+	// A': when Footer decides by NumRows which row groups exist, NumRows must become non-zero at write time only: a store
+	// on the Add path makes the row group that collects the records still pending at Close look written (and counts them)
+	if footerGuard {
+		var adds []*ssa.Function
+		for _, p := range u.TC {
+			if f := u.Func(p, "ParquetWriter.Add"); f != nil {
+				adds = append(adds, f)
+			}
+		}
+		fromAdd := u.reach(adds)
+		ctor, other := storesTo(u, numRows)
+		n := 0
+		for _, st := range append(ctor, other...) {
+			if u.pkgPathOf(st.Parent()) != rtPath || constIs(st.Val, 0) {
+				continue
+			}
+			n++
+			r.count(rule+"/numrows-stores", 1)
+			key := fmt.Sprintf("%s store to RowGroup.NumRows", u.FnName(st.Parent()))
+			if fromAdd[st.Parent()] {
+				r.bad(rule, key, u.Pos(st.Pos()), "RowGroup.NumRows — the quantity Footer uses to decide which row groups were written and sums into the file's row count — is advanced on the Add path ("+u.FnName(st.Parent())+"): records still pending at Close make the trailing, never written row group non-empty, so the footer lists a row group without column chunks and counts rows that are not in the file")
+			} else {
+				r.ok(rule, key, u.Pos(st.Pos()), "not reachable from ParquetWriter.Add: NumRows becomes non-zero only when pages are written")
+			}
+		}
+		r.floor(rule+"/numrows-stores", 1, "updateRowGroup")
 	}
 	for _, path := range u.TC {
 		short := strings.TrimPrefix(path, "uni/")
